@@ -14,9 +14,10 @@ CHECKS = {
     ),
     "C02": dict(
         test="TestC02",
+        table_cells=9 * 14 * 9 + 14 * 2 * 9,
         quick=dict(procs=6, checks=2500),
         thorough=dict(procs=32, checks=15000, timeout=1500),
-        rule="rapid draws: half from the exhaustive table (9 map key kinds x 14 value forms, 14 element forms x list/set, sizes 0,1,2,8,9,130; "
+        rule="rapid draws: half from the exhaustive table (9 map key kinds x 14 value forms, 14 element forms x list/set, sizes 0,1,2,8,9,27,55,111,130; "
              "cells hit are listed under classes 'cell:*'), half random types/values; non-trivial = output contains a container with >=2 elements or a nested struct; "
              "distinct by hash(type signature, canonical output bytes)",
         technique="property-based testing (rapid): differential against an independent reference encoder (up to map-entry order), a strict schema-less parser and apache/thrift TBinaryProtocol",
@@ -36,6 +37,7 @@ CHECKS = {
     ),
     "C04": dict(
         test="TestC04",
+        table_cells=9 * 14 * 9 + 14 * 2 * 9,
         quick=dict(procs=6, checks=1500),
         thorough=dict(procs=32, checks=10000, timeout=1500),
         rule="rapid draws (type, value incl. retained unknown-field bytes, spare capacity); for every case all buffer lengths 0..size+1 when size<=96, else 13 sampled lengths; "
@@ -166,9 +168,10 @@ CHECKS = {
     ),
     "C18": dict(
         test="TestC18",
+        table_cells=9 * 14 * 9 + 14 * 2 * 9,
         quick=dict(procs=6, checks=1200),
         thorough=dict(procs=16, checks=12000, timeout=1500),
-        rule="rapid draws: 75% exhaustive table cells (9 map key kinds x 14 value forms, 14 element forms x list/set, sizes 0,1,2,8,9,130), 25% random types incl. by-value/pointer structs and holder bytes; "
+        rule="rapid draws: 75% exhaustive table cells (9 map key kinds x 14 value forms, 14 element forms x list/set, sizes 0,1,2,8,9,27,55,111,130), 25% random types incl. by-value/pointer structs and holder bytes; "
              "non-trivial = the value has a non-empty container; distinct by (type signature, encoded size)",
         technique="property-based testing (rapid): MemStats.Mallocs delta over 64 calls after two warm-up calls (AllocsPerRun discipline) in a single-goroutine GOMAXPROCS=1 worker with GC disabled",
         level_text="For every generated (type, value) EncodedSize(&v) and EncodeObject(buf, nil, &v) with a buffer of size+64 are each called 64 times after two warm-ups; the Mallocs delta divided by 64 must be 0 (a non-zero result is re-measured once).",
